@@ -507,7 +507,10 @@ func (c *Ctx) truncToInt(x string, w int, signed bool) string {
 		tr = iw // x is integer-valued: x == (to_real iw)
 	}
 	lo, hi := intRange(w, signed)
-	any := c.freshSort("conv", "Int")
+	// out of range: implementation-dependent, but a function of the value
+	fn := fmt.Sprintf("f2i_%d_%v", w, signed)
+	c.declareFun(fn, []string{"Int"}, "Int")
+	any := sx(fn, tr)
 	c.assume(and(sx("<=", intLit(lo), any), sx("<=", any, intLit(hi))))
 	return sx("ite", and(sx("<=", intLit(lo), tr), sx("<=", tr, intLit(hi))), tr, any)
 }
